@@ -84,7 +84,7 @@ PusOps == {"tc.rt", "tc.unpack", "tm.rt", "tm.unpack", "pus.crc", "tm.svc_raw", 
 
 PusExp(op, a) ==
   CASE op = "tc.rt" ->
-         IF ~TcFits(a.p) THEN ExpRej(<<"value">>)
+         IF ~TcFits(a.p) THEN ExpRej(<<"*">>)     \* data that does not fit: packing must fail (how is not stated)
          ELSE LET t == TcOf(a.p)  w == TcEnc(t)
               IN [octets |-> w, plen |-> Len(w), sp |-> w, crcok |-> TRUE,
                   dec |-> t, dplen |-> Len(w), eq |-> TRUE, repack |-> w]
@@ -93,7 +93,7 @@ PusExp(op, a) ==
          IN IF d.ok THEN [v |-> d.v, plen |-> d.n, repack |-> Take(a.octets, d.n)]
             ELSE ExpRej(d.rej)
     [] op = "tm.rt" ->
-         IF ~TmFits(a.p) THEN ExpRej(<<"value">>)
+         IF ~TmFits(a.p) THEN ExpRej(<<"*">>)
          ELSE LET t == TmOf(a.p)  w == TmEnc(t)
               IN [octets |-> w, plen |-> Len(w), sp |-> w, crcok |-> TRUE,
                   dec |-> t, dplen |-> Len(w), eq |-> TRUE, repack |-> w,
